@@ -42,6 +42,10 @@ import shutil
 import tempfile
 from typing import Any, Dict, Iterator, List, Optional, Sequence, Tuple
 
+import odxtools.database  # noqa: F401 -- imported here (run_check has selected the tree already) so that the forked
+import odxtools.exceptions  # noqa: F401    children, in which all library code runs, need not import the library again
+import odxtools.nameditemlist  # noqa: F401
+import odxtools.odxlink  # noqa: F401
 from mcx.core import Ctx, Part, digest, isolated, jdump, pmap
 from odxmodel import emit_hier as eh
 from odxmodel import refinherit as ri
@@ -1056,7 +1060,8 @@ def sequence_problems(loader: Loader, case: Dict[str, Any], part: Optional[Part]
             part.count("sequence_first_" + first[0])
         if oc != first:
             def short(o: Tuple[str, Any]) -> str:
-                return f"raised {o[1]}" if o[0] == "error" else "loaded, services per layer " + str([x.get("svc") for x in o[1]])
+                cat = case["cats"][0]
+                return f"raised {o[1]}" if o[0] == "error" else f"loaded, {cat} view per layer " + str([x.get(cat) for x in o[1]])
             out.append((f"C09/sequence/second-evaluation-differs/{name}",
                         f"first evaluation: {short(first)}; {name}: {short(oc)}"))
     return out
